@@ -10,7 +10,7 @@ def run(idx, rep, tier):
     rep.explanation = (
         "R-COHERENCE: per class with a non-raising update_pose, every attribute whose constructor value depends on the "
         "pose-carrying constructor parameters is refreshed (stored, recomputed with the constructor's own expression, or "
-        "delegated). R-ROUNDTRIP: pose-less shapes read each attribute from the pose slot that collider2origin writes. "
+        "delegated). Pose-independent attributes are not reassigned by update_pose. R-QUERYSTATE: query-written state is only a search hint. R-ROUNDTRIP: pose-less shapes read each attribute from the pose slot that collider2origin writes. "
         "R-EAGER (engine E1, abstract interpretation of array ndim/dtype/layout with a join over every assignment of each "
         "attribute): every call from a collider method into a compiled function with an explicit signature is accepted for "
         "all values the attributes can hold after the constructor or update_pose with a C-contiguous pose. "
@@ -19,6 +19,7 @@ def run(idx, rep, tier):
     it = e1(idx)
     colliders.r_coherence(idx, rep)
     colliders.r_roundtrip(idx, rep)
+    colliders.r_querystate(idx, rep)
     scope = MODS if tier == "quick" else None
     eager.r_eager(idx, rep, it, caller_filter=(lambda f: f.module.name in MODS) if scope else None,
                   floor=15 if scope else 150, unknown_ceiling=2 if scope else 30)
